@@ -118,10 +118,12 @@ func runRetry(t *testing.T, rep *Report, rng *rand.Rand, n int) error {
 		tc       int64    // cancel after tc ns (-1 never)
 		breaker  int      // threshold (0 = none)
 		cooldown time.Duration
+		cin      int  // the invocation with this index cancels the context itself before it returns (-1: none)
+		zero     bool // zero backoff: the wait's timer is ready at once, together with Done after a cancellation
 	}
 	var cases []rc
 	for i := 0; i < n; i++ {
-		c := rc{max: rng.Intn(6), tc: -1}
+		c := rc{max: rng.Intn(6), tc: -1, cin: -1}
 		ln := 1 + rng.Intn(7)
 		for k := 0; k < ln; k++ {
 			c.outcomes = append(c.outcomes, []string{"trans", "trans", "trans", "ok", "perm"}[rng.Intn(5)])
@@ -140,12 +142,21 @@ func runRetry(t *testing.T, rep *Report, rng *rand.Rand, n int) error {
 			c.breaker = 1 + rng.Intn(3)
 			c.cooldown = time.Duration(rng.Intn(300)) * time.Millisecond
 		}
+		if c.tc < 0 && rng.Intn(3) == 0 {
+			c.cin = rng.Intn(ln)
+		}
+		c.zero = rng.Intn(3) == 0
 		cases = append(cases, c)
 	}
-	cfg := leader.BackoffConfig{InitialBackoff: 10 * time.Millisecond, MaxBackoff: 80 * time.Millisecond, BackoffMultiplier: 2, Jitter: 0.2}
+	cfgStd := leader.BackoffConfig{InitialBackoff: 10 * time.Millisecond, MaxBackoff: 80 * time.Millisecond, BackoffMultiplier: 2, Jitter: 0.2}
+	cfgZero := leader.BackoffConfig{InitialBackoff: 0, MaxBackoff: 80 * time.Millisecond, BackoffMultiplier: 2, Jitter: 0}
 	var reqs, impls, boReqs []string
 	var boVals [][]int64
 	for _, c := range cases {
+		cfg := cfgStd
+		if c.zero {
+			cfg = cfgZero
+		}
 		var calls []int64
 		var result string
 		refused := 0
@@ -166,6 +177,9 @@ func runRetry(t *testing.T, rep *Report, rng *rand.Rand, n int) error {
 					o = c.outcomes[idx]
 				} else {
 					o = "perm" // safety net: never loop for ever
+				}
+				if idx == c.cin {
+					cancel()
 				}
 				idx++
 				switch o {
@@ -221,6 +235,12 @@ func runRetry(t *testing.T, rep *Report, rng *rand.Rand, n int) error {
 			if c.tc >= 0 && result == "cancelled" && k+1 == len(calls) {
 				tie = "1"
 			}
+			if k == c.cin && o == "trans" {
+				o = "transc"
+				if k+1 == len(calls) {
+					d = 0
+				}
+			}
 			script = append(script, fmt.Sprintf("%s:%d:%s", o, d, tie))
 		}
 		if refused == 1 {
@@ -260,6 +280,9 @@ func runRetry(t *testing.T, rep *Report, rng *rand.Rand, n int) error {
 			}
 			if c.tc >= 0 && calls[k] >= c.tc && !(calls[k] == c.tc && c.tc > 0) {
 				rep.violation(Finding{Property: "C17", Clause: "retry-call-after-cancel", Input: in, Impl: impls[len(impls)-1]})
+			}
+			if c.cin >= 0 && k > c.cin {
+				rep.violation(Finding{Property: "C17", Clause: "retry-call-after-cancel", Input: in + fmt.Sprintf(" cancelled-by-invocation=%d zero-backoff=%v", c.cin, c.zero), Impl: impls[len(impls)-1]})
 			}
 		}
 		rep.hit("result:" + strings.TrimLeft(result, "?"))
